@@ -137,11 +137,11 @@ theorem tie_handlers_lock_first :
     C15.onAddLockFirst = true ∧ C15.onUpdLockFirst = true ∧ C15.onDelLockFirst = true := by decide
 
 /-- toElasticQuota (model `convertible`): typed pointer, unstructured pointer, tombstone BY VALUE; a tombstone is
-    unpacked only when it holds an unstructured object.  (Whether koord-manager adds the ElasticQuota type to client-go's
-    scheme.Scheme — the `reg` parameter of `convertible` — is extracted as `elasticQuotaInClientGoScheme`, `false` in
-    the pinned tree; it is a parameter of the model, deliberately not pinned here.) -/
+    unpacked when it holds the typed object (first, repair fc155e0) or an unstructured one.  (Whether koord-manager adds
+    the ElasticQuota type to client-go's scheme.Scheme — the `reg` parameter of `convertible` — is extracted as
+    `elasticQuotaInClientGoScheme`; it is a parameter of the model, deliberately not pinned here.) -/
 theorem tie_event_object_conversion :
     C15.toQuotaCases = ["*v1alpha1.ElasticQuota", "*unstructured.Unstructured", "cache.DeletedFinalStateUnknown"] ∧
-    C15.toQuotaTombstoneHolds = ["*unstructured.Unstructured"] := by decide
+    C15.toQuotaTombstoneHolds = ["*v1alpha1.ElasticQuota", "*unstructured.Unstructured"] := by decide
 
 end KoordVerif.C15
